@@ -71,7 +71,14 @@ COLUMNS = 120
 T0 = 64000
 MAXIMA = [0, 1, 3, 10, 50, 200]
 DTS = [0, 1, 4, 16, 128]            # 0, 1/64 (~10 ms), 1/16 (~50 ms), 1/4 (~200 ms), 2 s
-KINDS = ["ansi", "plain", "section", "plain_section"]
+KINDS = ["ansi", "plain", "section", "plain_section", "mixed_plain", "mixed_ansi"]
+# "mixed_*": the two outputs of the I/O differ in ANSI support; the bar draws on the ERROR output, whose kind decides
+# (mixed_plain = decorated standard output, plain error output; mixed_ansi the other way round)
+EFFECTIVE = {"mixed_plain": "plain", "mixed_ansi": "ansi"}
+
+
+def _eff(kind):
+    return EFFECTIVE.get(kind, kind)
 VERBOSITIES = [0, 1, 2, 4]
 BASE_FORMAT = {0: "normal", 1: "verbose", 2: "very_verbose", 4: "debug"}
 
@@ -145,9 +152,12 @@ def _tiny_pool(mx):
 def _exhaustive_cases(tier):
     """quick: every sequence up to length 4 over the 8-call pool; thorough: up to length 4 over the 11-call
     pool, lengths 5-6 over the 6-call core pool (both for all 12 configurations)"""
+    mixed = [(kind, 0, 3) for kind in ("mixed_plain", "mixed_ansi")]
     if tier == "quick":
-        return _product_cases(CONFIGS, lambda mx: _pool(mx, "quick"), range(0, 5))
+        return itertools.chain(_product_cases(CONFIGS, lambda mx: _pool(mx, "quick"), range(0, 5)),
+                               _product_cases(mixed, _core_pool, range(0, 4)))
     return itertools.chain(_product_cases(CONFIGS, lambda mx: _pool(mx, "thorough"), range(0, 5)),
+                           _product_cases(mixed, _core_pool, range(0, 5)),
                            _product_cases(CONFIGS, _core_pool, (5, 6)))
 
 
@@ -166,7 +176,7 @@ def _has_tag(fmt):
 
 
 def _random_case(rng, tier):
-    kind = rng.choice(["ansi", "ansi", "plain", "plain", "section", "plain_section"])
+    kind = rng.choice(["ansi", "ansi", "plain", "plain", "section", "plain_section", "mixed_plain", "mixed_ansi"])
     mx = rng.choice(MAXIMA)
     fmt = None
     if rng.random() < 0.55:
@@ -258,6 +268,14 @@ def run_impl(case):
     try:
         ansi = case["kind"] in ("ansi", "section")
         io = BufferedIO(formatter=AnsiFormatter(forced=True) if ansi else PlainFormatter())
+        if case["kind"] in EFFECTIVE:
+            from clikit.api.io import IO, Input, Output
+            from clikit.io.input_stream.string_input_stream import StringInputStream
+            from clikit.io.output_stream.buffered_output_stream import BufferedOutputStream
+            err_ansi = case["kind"] == "mixed_ansi"
+            io = IO(Input(StringInputStream("")),
+                    Output(BufferedOutputStream(), PlainFormatter() if err_ansi else AnsiFormatter(forced=True)),
+                    Output(BufferedOutputStream(), AnsiFormatter(forced=True) if err_ansi else PlainFormatter()))
         log = []
         stream = io.error_output.stream
         inner = stream.write
@@ -332,6 +350,7 @@ def model_requests(case):
     for k in ("kind", "quiet", "verbosity", "columns", "max", "min_ticks", "max_ticks", "redraw", "bar_width",
               "bar_char", "empty_char", "progress_char", "format", "message", "t0"):
         rq[k] = case[k]
+    rq["kind"] = _eff(case["kind"])
     return [rq]
 
 
@@ -508,7 +527,7 @@ def _check_frame(case, text, message, ev):
 
 
 def oracle(case, obs):
-    kind = case["kind"]
+    kind = _eff(case["kind"])
     overwrite = kind in ("ansi", "section")
     term = _Term(case["columns"])
     message = case["message"]
@@ -595,7 +614,7 @@ def oracle(case, obs):
 
 # --------------------------------------------------------------------------- known findings
 def known_class(case, obs, verdict):
-    if _has_tag(case["format"]) and case["kind"] in ("ansi", "section"):
+    if _has_tag(case["format"]) and _eff(case["kind"]) in ("ansi", "section"):
         return "D29"
     return None
 
